@@ -354,7 +354,7 @@ class C16(Prop):
             'constant shift (0 .. 4e9 us, kept below 2^32): time column and separator/gap values are recomputed in exact integer microseconds '
             '(+-1 in the last printed digit), a separator must sit between two consecutively shown messages iff their exact gap exceeds '
             '1000000 us, and the shifted log must display the same up to 1 unit in time-valued fields. non-trivial = shift != 0, a hidden message '
-            'between two shown ones, and gaps on both sides of the threshold; distinct by SHA-1 of the case.')
+            'between two shown ones, and gaps on both sides of the threshold; distinct by SHA-1 of the case. sink-sessions interleave commands that show no message (empty or unparsable listings, queries, help): they must not change where separators appear.')
     assumptions = ['a gap of exactly 1000000 us between shown neighbours does not exceed a second: no separator (decided since fix 205ee9e)',
                    'timestamps stay below 2^32 us (no wrap-around of libwayland\'s clock)',
                    'listings are only issued after the stream (a listing between two live messages makes "one after the other" ambiguous)']
